@@ -38,14 +38,14 @@ TCfg == /\ Is("Cfg")
         /\ nexec' = nexec + 1
         /\ UNCHANGED <<devUsed, hist>>
 
-\* same arguments -> the same object as EVERY earlier handle with these arguments
+\* the same object as EXACTLY the earlier handles requested with these arguments
 TGetIdeal == /\ Is("Get")
-             /\ SameArgs(Ev.scope) \subseteq SeqSet(Ev.eq)
+             /\ SeqSet(Ev.eq) = SameArgs(Ev.scope)
              /\ GetIdeal(Ev.scope)
              /\ UNCHANGED nexec
 \* the listed deviation: a disabled logger scope gets a fresh object (equal to none of them)
 TGetDev == /\ Is("Get")
-           /\ SameArgs(Ev.scope) \cap SeqSet(Ev.eq) = {}
+           /\ SeqSet(Ev.eq) = {}
            /\ GetDev(Ev.scope)
            /\ PrintT(<<"DEVAT", l>>)
            /\ UNCHANGED nexec
@@ -63,5 +63,5 @@ Accepted == IF TLCGet(1) = Len(TraceLog) + 1 THEN TRUE
             ELSE PrintT(<<"REJECTED_AT", TLCGet(1)>>) /\ FALSE
 Report == (l = Len(TraceLog) + 1) => (PrintT(<<"ACCEPTED", nexec>>) /\ PrintT(<<"DEVUSED", devUsed>>))
 \* the property, on every validated prefix
-TraceInv == DisabledEmitsNothingOthersUnaffected /\ DevNarrow /\ SameArgsSameObject
+TraceInv == DisabledEmitsNothingOthersUnaffected /\ DevNarrow /\ SameArgsSameObject /\ DifferentArgsDifferentObject
 =============================================================================
